@@ -235,6 +235,50 @@ pub fn main(args: &[String]) -> i32 {
             d.step(json!({"a": "disconnect", "e": "c", "r": 127}));
             d.drain(3);
         }
+        "repack" => {
+            // resends re-pack unacknowledged chunks into other datagram groupings than the first transmission;
+            // first transmissions and resends are then delivered in permuted orders (delay/reordering, no loss)
+            if !mode.init_online {
+                d.handshake();
+            }
+            let pool = [600usize, 450, 300, 700, 520, 1, 0];
+            for round in 0..14usize {
+                let k = 2 + round % 3;
+                for j in 0..k {
+                    let sz = pool[(round * 3 + j) % pool.len()];
+                    d.send(0, true, sz.min(max_sz));
+                    // flush after the first chunk, and at the end: the first transmission groups differently
+                    if j == 0 || j + 1 == k {
+                        d.step(json!({"a": "flush", "e": "c"}));
+                    }
+                }
+                if round % 2 == 1 {
+                    d.send(1, true, 300);
+                    d.step(json!({"a": "flush", "e": "s"}));
+                }
+                // nothing is delivered for a second: the resend timer fires and everything is packed again
+                d.step(json!({"a": "advance", "d": 1000}));
+                d.step(json!({"a": "tick", "e": "c"}));
+                d.step(json!({"a": "advance", "d": 500}));
+                d.step(json!({"a": "tick", "e": "c"}));
+                // deliver what is in flight from c in a seeded permutation (newest first, oldest first, shuffled)
+                while !d.w.net[0].is_empty() {
+                    let len = d.w.net[0].len();
+                    let i = match round % 3 {
+                        0 => len,
+                        1 => 1,
+                        _ => rng.gen_range(1..=len),
+                    };
+                    d.step(json!({"a": "deliver", "from": "c", "i": i}));
+                }
+                d.step(json!({"a": "flush", "e": "s"}));
+                d.drain(6);
+                d.step(json!({"a": "advance", "d": 500}));
+                d.step(json!({"a": "tick", "e": "c"}));
+                d.step(json!({"a": "tick", "e": "s"}));
+                d.drain(6);
+            }
+        }
         "fill" => {
             // packets filled to every total around the payload limit (1380..1400 queued bytes incl. chunk
             // headers), by two or three chunks, vital and not, sent and then resent after total loss
